@@ -278,6 +278,7 @@ func Extra4(except ...byte) []Opt4 {
 		}
 		out = append(out, Opt4{Code: byte(c), Data: []byte{1}})
 		out = append(out, Opt4{Code: byte(c), Data: []byte{10, 0, 0, 11}})
+		out = append(out, Opt4{Code: byte(c), Data: []byte{0, 0, 2, 88}}) // a small number (600)
 		long := make([]byte, 64)
 		for i := range long {
 			long[i] = byte(0xc0 + i%7)
